@@ -1,5 +1,5 @@
 (* C19 -- equality, ordering and hashing coincide with mathematical identity.
-   Only statements here; proofs are in coq/C19/{OrdProofs,PointProofs}.v.
+   Only statements here; proofs are in coq/C19/{OrdProofs,PointProofs,TorsionProofs}.v.
 
    Conventions: an Fp element is its stored Montgomery limb vector [a]; [fp_valid m a] is the
    invariant of every stored element (wf, N limbs, val a < p -- preserved by all operations, C01);
@@ -7,7 +7,7 @@
    function [h] of the structure a type feeds to it ([*_hash_key]). *)
 From V Require Import Base.Word Base.Field C15.BigIntModel C01.MontModel C01.MontProofs
   C03.CurveExec C03.FieldHyp C03.TEProofs
-  C19.OrdModel C19.Exprs C19.OrdProofs C19.PointProofs C19.Examples.
+  C19.OrdModel C19.Exprs C19.OrdProofs C19.PointProofs C19.TorsionProofs C19.Examples.
 
 (* ================= prime fields ================= *)
 
@@ -206,6 +206,101 @@ Proof. exact (fun T => @te_rescale_same_point T). Qed.
 Theorem C19_te_identity_any_z : forall T (F : Fops T), good_field F ->
   forall z z', z <> f0 F -> z' <> f0 F -> te_eqb F (f0 F, z, f0 F, z) (f0 F, z', f0 F, z') = true.
 Proof. exact (fun T => @te_identity_any_z T). Qed.
+
+(* ---- points anywhere on the curve: small order, outside the prime-order subgroup, zero coordinates.
+   No statement below (or above) assumes a subgroup or the curve equation: a representative is any
+   (X, Y, Z) resp. any valid (X : Y : T : Z) (Z <> 0, T Z = X Y). ---- *)
+
+(* is_zero answers "the denoted affine point is the neutral element (0, 1)" for EVERY valid representative *)
+Theorem C19_te_is_zero_iff : forall T (F : Fops T), good_field F ->
+  forall P, te_valid F P -> (te_is_zero F P = true <-> te_to_affine F P = (f0 F, f1 F)).
+Proof. exact (fun T => @te_is_zero_iff T). Qed.
+
+(* P == zero() and zero() == P are is_zero *)
+Theorem C19_te_eq_zero_is_zero : forall T (F : Fops T), good_field F ->
+  forall P, te_eqb F P (te_zero F) = te_is_zero F P /\ te_eqb F (te_zero F) P = te_is_zero F P.
+Proof. exact (fun T => @te_eq_zero_is_zero T). Qed.
+
+Theorem C19_te_aff_is_zero_spec : forall T (F : Fops T), good_field F ->
+  forall A, te_aff_is_zero F A = true <-> A = (f0 F, f1 F).
+Proof. exact (fun T => @te_aff_is_zero_spec T). Qed.
+
+(* Affine::is_zero of into_affine() = Projective::is_zero *)
+Theorem C19_te_into_affine_is_zero : forall T (F : Fops T), good_field F ->
+  forall P, te_valid F P -> te_aff_is_zero F (te_to_affine F P) = te_is_zero F P.
+Proof. exact (fun T => @te_into_affine_is_zero T). Qed.
+
+Theorem C19_te_eqb_sym : forall T (F : Fops T), good_field F ->
+  forall P Q, te_valid F P -> te_valid F Q -> te_eqb F P Q = te_eqb F Q P.
+Proof. exact (fun T => @te_eqb_sym T). Qed.
+
+(* rescaling (X l : Y l : T l : Z l) of a point anywhere on the curve: same point for ==, same is_zero *)
+Theorem C19_te_rescale_eq : forall T (F : Fops T), good_field F ->
+  forall lam P, lam <> f0 F -> te_valid F P ->
+  te_eqb F (te_rescale F lam P) P = true /\ te_is_zero F (te_rescale F lam P) = te_is_zero F P.
+Proof. exact (fun T => @te_rescale_eq T). Qed.
+
+(* the point of order two (0, -1) in any representative (0 : -z : 0 : z) is valid, is NOT the neutral
+   element for is_zero, == (both argument orders, against every representative of the identity) and
+   Affine::is_zero *)
+Theorem C19_te_order_two_not_zero : forall T (F : Fops T), good_field F ->
+  forall z z', z <> f0 F -> z' <> f0 F ->
+  te_valid F (f0 F, fneg F z, f0 F, z) /\
+  te_to_affine F (f0 F, fneg F z, f0 F, z) = (f0 F, fneg F (f1 F)) /\
+  te_is_zero F (f0 F, fneg F z, f0 F, z) = false /\
+  te_eqb F (f0 F, fneg F z, f0 F, z) (f0 F, z', f0 F, z') = false /\
+  te_eqb F (f0 F, z', f0 F, z') (f0 F, fneg F z, f0 F, z) = false /\
+  te_aff_is_zero F (f0 F, fneg F (f1 F)) = false.
+Proof. exact (fun T => @te_order_two_not_zero T). Qed.
+
+(* normalize_batch = into_affine point by point *)
+Theorem C19_te_normalize_batch : forall T (F : Fops T), good_field F ->
+  forall v, Forall (te_valid F) v -> te_normalize_batch F v = map (te_to_affine F) v.
+Proof. exact (fun T => @te_normalize_batch_valid T). Qed.
+
+Theorem C19_sw_eq_zero_is_zero : forall T (F : Fops T), good_field F ->
+  forall P, sw_eqb F P (sw_zero F) = sw_is_zero F P /\ sw_eqb F (sw_zero F) P = sw_is_zero F P.
+Proof. exact (fun T => @sw_eq_zero_is_zero T). Qed.
+
+(* the infinity flag of into_affine() = Projective::is_zero *)
+Theorem C19_sw_into_affine_is_zero : forall T (F : Fops T), good_field F ->
+  forall P, sw_aff_is_zero (sw_into_affine F P) = sw_is_zero F P.
+Proof. exact (fun T => @sw_into_affine_is_zero T). Qed.
+
+Theorem C19_sw_eqb_sym : forall T (F : Fops T), good_field F ->
+  forall P Q, sw_eqb F P Q = sw_eqb F Q P.
+Proof. exact (fun T => @sw_eqb_sym T). Qed.
+
+(* points of order two (Y = 0, Z <> 0): P == -P, but P is not the identity *)
+Theorem C19_sw_order_two : forall T (F : Fops T), good_field F ->
+  forall x z, z <> f0 F ->
+  sw_is_zero F (x, f0 F, z) = false /\
+  sw_eqb F (x, f0 F, z) (sw_neg F (x, f0 F, z)) = true /\
+  sw_eqb F (x, f0 F, z) (sw_zero F) = false.
+Proof. exact (fun T => @sw_order_two T). Qed.
+
+Theorem C19_sw_rescale_eq : forall T (F : Fops T), good_field F ->
+  forall lam P, lam <> f0 F -> sw_eqb F (sw_rescale F lam P) P = true.
+Proof. exact (fun T => @sw_rescale_eq T). Qed.
+Theorem C19_sw_rescale_is_zero : forall T (F : Fops T), good_field F ->
+  forall lam P, lam <> f0 F -> sw_is_zero F (sw_rescale F lam P) = sw_is_zero F P.
+Proof. exact (fun T => @sw_rescale_is_zero T). Qed.
+
+Theorem C19_sw_normalize_batch : forall T (F : Fops T), good_field F ->
+  forall v, sw_normalize_batch F v = map (sw_to_affine F) v.
+Proof. exact (fun T => @sw_normalize_batch_all T). Qed.
+
+(* the order-two point (0 : -3 : 0 : 3) of a twisted Edwards curve and the order-two point (-1, 0) of
+   y^2 = x^3 + 1 in the representative (-4, 0, 2), over Q *)
+Example C19_te_order_two_example : q 3 <> f0 QcOps /\ q 5 <> f0 QcOps /\ te_valid QcOps (q 0, q (-3), q 0, q 3) /\
+  te_is_zero QcOps (q 0, q (-3), q 0, q 3) = false /\ te_is_zero QcOps (q 0, q 5, q 0, q 5) = true /\
+  te_eqb QcOps (q 0, q (-3), q 0, q 3) (q 0, q 5, q 0, q 5) = false.
+Proof. exact (conj ex_three_nz (conj ex_five_nz (conj ex_te_valid_ord2 (conj eq_refl (conj eq_refl eq_refl))))). Qed.
+Example C19_sw_order_two_example : q 2 <> f0 QcOps /\
+  sw_is_zero QcOps (q (-4), q 0, q 2) = false /\
+  sw_eqb QcOps (q (-4), q 0, q 2) (sw_neg QcOps (q (-4), q 0, q 2)) = true /\
+  sw_to_affine QcOps (q (-4), q 0, q 2) = Some (q (-1), q 0).
+Proof. exact (conj ex_rescale_nz (conj eq_refl (conj eq_refl ex_sw_order_two_affine))). Qed.
 
 Example C19_good_field_example : good_field QcOps.
 Proof. exact QcOps_good. Qed.
